@@ -54,24 +54,24 @@ CLAIMS = {
 }
 # clauses added after the first claim (rules written from the seeded changes, DESIGN.md section 10.3)
 EXTRA = {
-    "C17": "Also: weights are read from the components when the index is computed (a list of share counts kept on the index market is reported).",
-    "C11": "Shared premise: one agent per id in the table the call backs are routed through (registry part of C18.R2). A call back made under a condition the rules do not know is refused (analysis error), not decided.",
+    "C17": "Also: weights are read from the components when the index is computed (a list of share counts kept on the index market is reported). Only _add_market changes the component list, and nobody changes the list get_components() hands out.",
+    "C11": "Shared premise: one agent per id in the table the call backs are routed through (registry part of C18.R2). A call back made under a condition the rules do not know is refused (analysis error), not decided. Matching rounds are started only where their fills are reported, and a round hands back exactly its own fills (C05.R3, C05.R5).",
     "C08": "Also: per-price depth maps every price in the queue to the sum of the volumes at that price; the best quote is read from the top of a valid heap (C02.R2). Every series grows only by fresh slots appended to itself (C06.R5).",
     "C03": "Shared premises (necessary conditions of `never raises`): fresh read of the session switches (C09.R2), halt rule closes the market with a record that lets it restart (C16.R2), cancel and expiry bookkeeping stay consistent with the queue (C04.R6), no order of non-positive volume (C04.R9), unique ids (C02.R7), a round with a limit order ends with a price, 0 included (C01.R2), order kinds compared by value.",
-    "C02": "Also: order ids are unique within a market and grow with acceptance (counter started by the constructor only, advanced past every id handed out); hooks that may rewrite a pending order run before it is handed to the market. Prices, times and ids are compared by value where orders are ranked (no `is` on numbers).",
+    "C02": "Also: order ids are unique within a market and grow with acceptance (counter started by the constructor only, advanced past every id handed out); hooks that may rewrite a pending order run before it is handed to the market. Prices, times and ids are compared by value where orders are ranked (no `is` on numbers). Only Market._add_order calls OrderBook.add (which stamps the acceptance time); the comparator reads no constructor field of Order besides the priority keys. Decided for a queue kept with heapq; a queue kept otherwise is refused (analysis error).",
     "C01": "Shared premise: tick rounding of the limits a trade is held to (C19.R2); order comparator is the price/time/id order (C02.R1); no fill happens before the walk over the book.",
     "C04": "Also: removal by equality removes the order meant (Order equality implies equal ids); the `now` of expiry is the market clock (both books are set to it at every clock write, C06.R6); every cancel/expiry record is written for the object removed (C10.R3). A removed order also leaves its expiry bucket; whole buckets are dropped by the reaper only.",
-    "C05": "Also: the holdings containers do not escape (getters return values or copies, no rebinding outside the owner); the logs of each matching round are applied exactly once before any party is notified; what a round hands back is exactly the list of the fills it made.",
+    "C05": "Also: the holdings containers do not escape (getters return values or copies, no rebinding outside the owner); the logs of each matching round are applied exactly once before any party is notified; what a round hands back is exactly the list of the fills it made. The agent a fill changes is the one registered under the id the fill names (registry filing, C18.R2).",
     "C06": "Also: both order books are set to exactly the market's new time by every clock method and store exactly the time they are given; the recorded series are indexed only by the market's own guarded accessors. A session length of 0 is taken as configured (no truthiness test).",
-    "C09": "Which generator provides a draw is not part of this claim (C07 decides that); the session keys behind switches, caps and rate are decided by the rule shared with C18; every agent is filed in exactly one of the two populations; settings of one session never reach the next; a matching round that was started only returns early on `nothing executable` (C03.R4).",
-    "C10": "Also: every subclass constructor forwards the logger; record fields are read after the event's last write (stale locals are reported); a cancel record carries the time of the cancel. Only write/bulk_write add to the pending list and only the constructor and _process (after processing) rebind it; an expiry record is written only for an order still resting (C04.R6).",
-    "C12": "Also decided: lookups return values only below the regeneration point (or, if they go by series length, every mover of the point cuts the tail); chunk planning (a chunk ends at the next market start; exactly the markets started before the chunk's end are regenerated); every drift is taken from the id list of its own partition; what a generator changes in place belongs to that generator object; every configured correlation reaches the generator, in whatever order its two markets are named, and only set_correlation / remove_correlation change the table. set_correlation / remove_correlation change exactly the named pair's entry, whichever way round it is stored (finite model).",
+    "C09": "Which generator provides a draw is not part of this claim (C07 decides that); the session keys behind switches, caps and rate are decided by the rule shared with C18; every agent is filed in exactly one of the two populations; settings of one session never reach the next; a matching round that was started only returns early on `nothing executable` (C03.R4). Step hooks run whatever the session prints (C13.R3); every declared hook is entered in the table (C13.R4).",
+    "C10": "Also: every subclass constructor forwards the logger; record fields are read after the event's last write (stale locals are reported); a cancel record carries the time of the cancel. Only write/bulk_write add to the pending list and only the constructor and _process (after processing) rebind it; an expiry record is written only for an order still resting (C04.R6). Fields of a record are not changed by a function that was given the record (agent call backs, logger handlers).",
+    "C12": "Also decided: lookups return values only below the regeneration point (or, if they go by series length, every mover of the point cuts the tail); chunk planning (a chunk ends at the next market start; exactly the markets started before the chunk's end are regenerated); every drift is taken from the id list of its own partition; what a generator changes in place belongs to that generator object; every configured correlation reaches the generator, in whatever order its two markets are named, and only set_correlation / remove_correlation change the table. set_correlation / remove_correlation change exactly the named pair's entry, whichever way round it is stored (finite model). The fundamental path starts at fundamentalPrice if given, else marketPrice (finite model over the keys present).",
     "C13": "Also: a hook is registered under its own time list when one is given (an empty list is not `always`), dispatch loops never stop early, every declared hook is registered for the event that declared it (closure or method callback). Times, names and hook types are compared by value; a step trigger is not skipped for lack of a logger; the all-times bucket precedes the timed one.",
-    "C14": "Also: the window length is the configured value and has no other writer. Shared premises: dispatch reaches every hook (C13.R2), regeneration continues from the shocked level (C12.R1).",
-    "C15": "Also: the target table holds exactly the configured markets under their own names and is created per rule object. Shared premise: the rule's hook is registered for that very rule (C13.R5). Whether an order is a limit order is decided by value.",
-    "C16": "Also: target table and halt records are per rule object and hold the configured markets. Shared premises: dispatch of fill and step-begin hooks (C13.R2), market-price refresh after a fill (C08.R2). Every path of the resume handler that leaves a target market halted has a stated reason (a test of the start time against a constant is not one); running flags are set from the new session at every session start (C09.R2).",
-    "C18": "Also: the configuration is never changed in place (group expansion works on the copy returned by json_extends), so a parent group read later still carries its count, range and prefix; defaults and configured values of one group never leak into the next; json is loaded without hooks that drop or rewrite entries. A configured number is used as configured, 0 included (no `x or default`, no truthiness test for presence, in any setup() or runner configuration reader); registries compare ids and names by value, each in its own table.",
-    "C19": "The side is decided by the truth value of the flag (as the order book files the order), not by identity with True. Whether an order carries a price to round is decided by value.",
+    "C14": "Also: the window length is the configured value and has no other writer. Shared premises: dispatch reaches every hook (C13.R2), regeneration continues from the shocked level (C12.R1). Session start times accumulate the lengths of all earlier sessions (C06.R3).",
+    "C15": "Also: the target table holds exactly the configured markets under their own names and is created per rule object. Shared premise: the rule's hook is registered for that very rule (C13.R5). Whether an order is a limit order is decided by value. The width of the price range is stored, outside the constructor, with the configured rate only; every event listed in a session is created.",
+    "C16": "Also: target table and halt records are per rule object and hold the configured markets. Shared premises: dispatch of fill and step-begin hooks (C13.R2), market-price refresh after a fill (C08.R2). Every path of the resume handler that leaves a target market halted has a stated reason (a test of the start time against a constant is not one); running flags are set from the new session at every session start (C09.R2). Halt length and rate are stored, outside the constructor, with their configured values only.",
+    "C18": "Also: the configuration is never changed in place (group expansion works on the copy returned by json_extends), so a parent group read later still carries its count, range and prefix; defaults and configured values of one group never leak into the next; json is loaded without hooks that drop or rewrite entries. A configured number is used as configured, 0 included (no `x or default`, no truthiness test for presence, in any setup() or runner configuration reader); registries compare ids and names by value, each in its own table. Registered user classes are only appended; each registry files an object under its own id and name.",
+    "C19": "The side is decided by the truth value of the flag (as the order book files the order), not by identity with True. Whether an order carries a price to round is decided by value. Hooks that may rewrite a price run before the market rounds and accepts the order (C13.R3).",
     "C20": "Also: the FCN expected future price is the documented formula, decided as a polynomial identity over its components (weights, log ratios, window, noise draw) for both trend attitudes; an arbitrage agent passes every market's basket on whole; an FCN agent runs its strategy on every market it is given and can access, and prices the order off that market's own price. Evaluation of the formula in floats is not decided. Configured thresholds and weights are used as configured, 0 included.",
 }
 TECH_DEFAULT = "AST path summaries, call graph and writer sets"
